@@ -139,3 +139,13 @@ ige_dec!(t_ige_dec_b2_w2_n5_multi, 40, U2, 2, U4, U2, 5, MULTI);
 ige_dec!(t_ige_dec_b1_w8_n9_multi, 40, U1, 1, U2, U8, 9, MULTI);
 ige_dec!(t_ige_dec_b3_w4_n5_single, 40, U3, 3, U6, U4, 5, SINGLE);
 ige_dec!(t_ige_dec_b8_w2_n3_inout, 40, U8, 8, U16, U2, 3, INOUT);
+// odd block sizes (generic code paths use N::USIZE only, but word-wise "optimisations" would not)
+cbc_enc!(t_cbc_enc_b5_w2_n3_multi, 40, U5, 5, U2, 3, MULTI);
+cbc_dec!(t_cbc_dec_b7_w3_n4_b2b, 48, U7, 7, U3, 4, B2B);
+cbc_dec!(t_cbc_dec_b12_w2_n3_multi, 48, U12, 12, U2, 3, MULTI);
+pcbc_enc!(t_pcbc_enc_b7_w2_n3_inout, 48, U7, 7, U2, 3, INOUT);
+pcbc_dec!(t_pcbc_dec_b5_w3_n4_multi, 48, U5, 5, U3, 4, MULTI);
+pcbc_dec!(t_pcbc_dec_b12_w2_n3_b2b, 48, U12, 12, U2, 3, B2B);
+ige_enc!(t_ige_enc_b5_w2_n3_multi, 48, U5, 5, U10, U2, 3, MULTI);
+ige_dec!(t_ige_dec_b7_w3_n4_b2b, 64, U7, 7, U14, U3, 4, B2B);
+ige_dec!(t_ige_dec_b12_w2_n3_multi, 64, U12, 12, U24, U2, 3, MULTI);
